@@ -8,6 +8,7 @@ import (
 
 	"golang.org/x/tools/go/ssa"
 
+	"verif/internal/absint"
 	"verif/internal/ev"
 	"verif/internal/load"
 	"verif/internal/rules"
@@ -117,7 +118,8 @@ func c10(cx *Ctx, r *ev.Report) {
 				ok = true
 			}
 		}
-		if strings.HasPrefix(name, "sync/atomic.") || strings.HasPrefix(name, "(*sync/atomic.") || strings.HasPrefix(name, "math/bits.") {
+		if strings.HasPrefix(name, "sync/atomic.") || strings.HasPrefix(name, "(*sync/atomic.") || strings.HasPrefix(name, "math/bits.") ||
+			absint.PureLibrary(name) || strings.HasPrefix(name, "log.Print") || strings.HasPrefix(name, "context.With") {
 			ok = true
 		}
 		if !ok {
